@@ -82,19 +82,23 @@ fn non_ws_hex(s: &str) -> String {
 }
 
 fn run(req: &str) -> String {
+    let t0 = std::time::Instant::now();
     let Some(p) = parse_request(req) else { return "bad-request".into() };
     let bytes = build_pdf(&p);
+    let t1 = t0.elapsed();
     let reader = match PdfReader::new(Cursor::new(bytes)) {
         Ok(r) => r,
         Err(_) => return "err:open".into(),
     };
     let doc = PdfDocument::new(reader);
+    let t2 = t0.elapsed();
     let mut ex1 = extractor(&p.opts);
     let r1 = match ex1.extract_from_page(&doc, 0) {
         Ok(t) => t,
         Err(_) => return "err:extract".into(),
     };
     let fp1 = fingerprint(&r1);
+    if std::env::var("C11_TIME").is_ok() { eprintln!("build {:?} open {:?} extract1 {:?}", t1, t2, t0.elapsed()); }
     let same_again = ex1.extract_from_page(&doc, 0).map(|t| fingerprint(&t) == fp1).unwrap_or(false);
     let fresh = extractor(&p.opts).extract_from_page(&doc, 0).map(|t| fingerprint(&t) == fp1).unwrap_or(false);
     let within = p.opts.max.map(|m| r1.text.len() <= m).unwrap_or(true);
